@@ -39,3 +39,6 @@ FUNCS = [
 ]
 
 TASK = Task("onset", FUNCS, pair_space, single_space)
+
+
+TASK.edges = {"shift": {"apply": B._shift, "funcs": None, "keys": None}}
